@@ -268,9 +268,9 @@ func (s *c11state) shares(arr int, except ...int) bool {
 func (s *c11state) alphabet(nv int, rich bool) []c11op {
 	var ops []c11op
 	for v := 0; v < nv; v++ {
-		ops = append(ops, c11op{Kind: "make", V: v, N: 3}, c11op{Kind: "lit", V: v, N: 3}, c11op{Kind: "nil", V: v})
+		ops = append(ops, c11op{Kind: "make", V: v, N: 3}, c11op{Kind: "lit", V: v, N: 3}, c11op{Kind: "nil", V: v}, c11op{Kind: "make", V: v, N: 0})
 		if rich {
-			ops = append(ops, c11op{Kind: "make", V: v, N: 0}, c11op{Kind: "lit", V: v, N: 1}, c11op{Kind: "lit", V: v, N: 0}, c11op{Kind: "make", V: v, N: 1})
+			ops = append(ops, c11op{Kind: "lit", V: v, N: 1}, c11op{Kind: "lit", V: v, N: 0}, c11op{Kind: "make", V: v, N: 1})
 		}
 	}
 	for v := 0; v < nv; v++ {
@@ -759,6 +759,11 @@ func c11templates() [][2]string {
 	add("\tb := make([]byte, 3)\n\tn := 0\n\tcopy(b, \"héllo\")\n\tfor _, x := range b {\n\t\tn += int(x)\n\t}\n\tfmt.Println(b[0], b[1], b[2], n)\n", "104 195 169 468\n")
 	add("\ta := []int{1, 2, 3, 4}\n\tb := a[1:3]\n\tcopy(a, b)\n\tfmt.Println(a[0], a[1], a[2], a[3], b[0], b[1])\n", "2 3 3 4 3 3\n")
 	add("\ta := []int{1, 2, 3, 4}\n\tcopy(a[1:], a)\n\tfmt.Println(a[0], a[1], a[2], a[3])\n", "1 1 2 3\n")
+	// range reads the live array: an element written by the body before the loop reaches it is seen, also through an
+	// alias; the length is fixed when the loop starts
+	add("\ts := []int{1, 2, 3, 4}\n\tt := s[1:]\n\tsum := 0\n\tfor i, v := range s {\n\t\tif i == 0 {\n\t\t\ts[2] = 30\n\t\t\tt[2] = 40\n\t\t}\n\t\tsum += v\n\t}\n\tfmt.Println(sum)\n", "73\n")
+	add("\ts := []int{1, 1, 1, 1, 1}\n\tfor i := range s {\n\t\tif i > 0 {\n\t\t\ts[i] += s[i-1]\n\t\t}\n\t}\n\trun := 0\n\tfor i, v := range s {\n\t\tif i+1 < len(s) {\n\t\t\ts[i+1] = v * 2\n\t\t}\n\t\trun += v\n\t}\n\tfmt.Println(s, run)\n", "[1 2 4 8 16] 31\n")
+	add("\ts := []int{1, 2, 3}\n\tn := 0\n\tfor _, v := range s {\n\t\ts = append(s, v)\n\t\tn++\n\t}\n\tfmt.Println(n, len(s))\n\tm := make([]int, 0)\n\ta := append(m, 1)\n\tb := append(m, 2)\n\tb[0] = 7\n\tfmt.Println(a[0], b[0], len(m))\n", "3 6\n1 7 0\n")
 	// the value of copy: assigned, inside an expression, as an argument; nil and shorter operands; next to live locals
 	add("\ta := []int{1, 2, 3, 4}\n\tb := []int{9, 8}\n\tvar z []int\n\tn1 := copy(a, b)\n\tn2 := copy(b, a)\n\tn3 := copy(z, a)\n\tn4 := copy(a, z)\n\tn5 := copy(a[3:], b)\n\tfmt.Println(n1, n2, n3, n4, n5, a, b, copy(a[1:], a), a)\n", "2 2 0 0 1 [9 9 8 3] [9 8] 3 [9 9 8 3]\n")
 	add("\tb := make([]byte, 2)\n\tn := copy(b, \"héllo\")\n\tfmt.Println(n, b, 1+copy(b, \"x\")*2, b)\n", "2 [120 195] 3 [120 195]\n")
